@@ -783,14 +783,28 @@ def native_main(a):
                         M=g('M', 1.0), best=int(a.get('best') if a.get('best') is not None else g('best', 0)),
                         recalc=bool(a.get('recalc') if a.get('recalc') is not None else g('recalc', False)),
                         min_delta=INF if (a.get('md_inf') if a.get('md_inf') is not None else g('accuracy_is_inf', True)) else g('min_delta', 1.0),
-                        iterations=int(g('iterations', 1)), trials=int(g('trials', k)))
+                        iterations=int(g('iterations', 1)), trials=int(g('trials', k)) if not a.get('fault') else k)
             s.problem.started_offset = k
             items = populate(mods, s, spec)
             # the native objective is indexed by evaluation number: shift so that the next evaluation gets z_k
             base = len(s.problem.started)
             s.problem.fn = lambda ys, i: zs_new[i - base] if 0 <= i - base < len(zs_new) else 0.0
             pre = pre_snapshot(mods, s, items, N)
-            if a.get('solve'):
+            if a.get('fault'):
+                import io
+                import contextlib
+                fk, fe = a['fault']
+                s.problem.fn = lambda ys, i: (_raise(EXC_TYPES[fe]()) if i == fk else (zs_new[i - base] if 0 <= i - base < len(zs_new) else 0.0))
+                s.method.parameters.eps = 1e-12
+                s.method.parameters.itersLimit = 10 ** 6
+                buf = io.StringIO()
+                with contextlib.redirect_stdout(buf):
+                    n0 = len(s.problem.started)
+                    sol = s.Solve()
+                ctx = {'solver': s, 'prob': s.problem, 'N': N, 'returned': [('solve', sol, snapshot_solution(sol), n0, len(s.problem.started))],
+                       'prints': buf.getvalue().splitlines(), 'lower': lower, 'upper': upper}
+                cl = fault_clauses(mods, ctx, want)
+            elif a.get('solve'):
                 import io
                 import contextlib
                 buf = io.StringIO()
@@ -800,6 +814,34 @@ def native_main(a):
             else:
                 s.DoGlobalIteration(1)
                 cl = [(l, c) for (l, kind, c) in step_clauses(mods, s, pre, want=want) if kind == 'P' or a.get('all_kinds')]
+        elif a['level'] == 'compose':
+            cfg = a['cfg']
+            N = cfg['N']
+            f = prefix_function(cfg.get('seed', 0), N)
+            kpre = cfg.get('kpre', 0)
+            zs = [g('z%d' % j, 0.0) for j in range(cfg.get('nsym', 8))]
+            memo = {}
+
+            def factory():
+                def obj(ys, i):
+                    if i < kpre:
+                        return f([float(y) for y in ys])
+                    key = tuple(round(float(y), 12) for y in ys)
+                    if key not in memo:
+                        j = len(memo)
+                        memo[key] = zs[j] if j < len(zs) else 0.0
+                    return memo[key]
+                return obj
+            import io
+            import contextlib
+            buf = io.StringIO()
+            with contextlib.redirect_stdout(buf):
+                ctxs = compose_run(mods, cfg, factory, cfg['r'], g('eps', 1e-9) if cfg.get('eps') == 'sym' else cfg.get('eps', 1e-9))
+            for c in ctxs:
+                c['prints'] = buf.getvalue().splitlines()
+            import importlib
+            modname, fn = a['clauses']
+            cl = getattr(importlib.import_module(modname), fn)(mods, ctxs, want)
         elif a['level'] == 'guard':
             s = make_solver(mods, P(1, lower, upper, lambda ys, i: 0.0), 2.5, 0.01, 1000)
             cl = guard_clauses(mods, s, g('eps', 0.01), int(g('iters_limit', 1)), int(g('iterations', 1)),
@@ -859,7 +901,7 @@ def native_main(a):
                 cl += getattr(importlib.import_module(modname), fn)(mods, ctx, want)
         else:
             return ['(unknown replay level)'], True
-    except Exception as e:     # an exception out of the public interface / kernel on valid input is itself the violation
+    except BaseException as e:     # an exception out of the public interface / kernel on valid input is itself the violation
         import traceback
         return ['%s EXC: the code raised %s: %s' % (want[0] if want else '', type(e).__name__, e), traceback.format_exc()[-800:]], False
     for l, c in cl:
@@ -867,6 +909,10 @@ def native_main(a):
             if l not in bad:
                 bad.append(l)
     return bad, False
+
+
+def _raise(e):
+    raise e
 
 
 class _Lines:
@@ -1025,6 +1071,35 @@ def loop_clauses(mods, solver, pre, eps, L, prints):
     return cl, stopped_before
 
 
+def fault_clauses(mods, ctx, want):
+    """C16: the objective raised on one evaluation during Solve; Solve returned; the result reflects the completed trials."""
+    s, prob, N = ctx['solver'], ctx['prob'], ctx['N']
+    out = []
+    solves = [x for x in ctx['returned'] if x[0] == 'solve']
+    out.append(('C16 RETURN: Solve returns although the objective raised', len(solves) >= 1))
+    if not solves:
+        return out
+    sol = solves[0][1]
+    failed = len(prob.started) > len(prob.done)
+    out.append(('C16 FAULT: the injected failure happened during this Solve', failed))
+    out.append(('C16 TRIALS: the reported number of trials equals the completed evaluations', EQ(sol.numberOfGlobalTrials, len(prob.done))))
+    out += [('C16 ' + l, c) for l, c in optimum_clauses(snapshot_solution(sol), prob.done, 'after the failure')]
+    Ev = mods.evolvent.Evolvent
+
+    def fresh_image(x):
+        return list(Ev(ctx['lower'], ctx['upper'], N, s.evolvent.evolventDensity).GetImage(x))
+    obs = observe(s)
+    out += [('C16 ' + l, c) for l, c in search_info_clauses(obs, prob.done, N, image=fresh_image if (N == 1 and not ctx.get('stub_evolvent')) else None)]
+    if failed:
+        fp = prob.started[len(prob.done)]
+        for i, pt in enumerate(obs['points'][1:-1]):
+            same = AND(*[EQ(a, b) for a, b in zip(pt, fp)])
+            out.append(('C16 NOTREC: the failed point is not recorded', NOT(same)))
+    if ctx.get('prints') is not None:
+        out.append(('C16 PRINT: the failure is reported on stdout', any('Exception was thrown' in p for p in ctx['prints'])))
+    return out
+
+
 def scenario_clauses(mods, ctx, want):
     s, prob, L, N, r = ctx['solver'], ctx['prob'], ctx['listener'], ctx['N'], ctx['r']
     Ev = mods.evolvent.Evolvent
@@ -1047,8 +1122,113 @@ def scenario_clauses(mods, ctx, want):
                 out.append(('C03 AGAIN: Solve on a finished solver performs no further trial', later[3] == later[4]))
         if ctx['prints'] is not None and not cfg.get('fail'):
             out.append(('C03 NOEXC: no internal exception is swallowed during Solve', not any('Exception was thrown' in p for p in ctx['prints'])))
+    if 'C16' in want:
+        out += fault_clauses(mods, ctx, want)
     if 'C04' in want:
         for (kind, sol, snap, n0, n1) in ctx['returned']:
             if kind == 'solve' and not cfg.get('refine'):
                 out += [('C04 ' + l, c) for l, c in optimum_clauses(snapshot_solution(sol), prob.done, 'in the returned Solution')]
+    return out
+
+
+# ----------------------------------------------------------------------------------------------
+# self-composition: several fresh solvers on the SAME objective, different call patterns (C11, C12, C13)
+def compose_run(mods, cfg, objective_factory, r, eps, prints=None):
+    """cfg['variants']: list of dicts overriding cfg (script, overrides, console, sibling ...).  One fresh solver per variant."""
+    ctxs = []
+    for v in cfg['variants']:
+        c = dict(cfg)
+        c.update(v)
+        c.pop('variants', None)
+        ctxs.append(run_scenario(mods, c, objective_factory(), r, eps, prints=prints))
+    return ctxs
+
+
+def history(ctx):
+    """(x, z, point) of every trial in evaluation order, from the solver's own record (public getters) and the call log."""
+    s = ctx['solver']
+    items = list(s.searchData._allTrials)
+    inner = [it for it in items if it.GetIndex() == 0]
+    return [(it.GetX(), it.GetZ(), list(it.GetY().floatVariables)) for it in inner]
+
+
+def same_history(ha, hb, label, upto=None):
+    out = []
+    n = min(len(ha), len(hb)) if upto is None else upto
+    for i in range(n):
+        if i >= len(ha) or i >= len(hb):
+            out.append((label, False))
+            break
+        conds = [EQ(ha[i][0], hb[i][0]), EQ(ha[i][1], hb[i][1])] + [EQ(a, b) for a, b in zip(ha[i][2], hb[i][2])]
+        out.append((label, AND(*conds)))
+    return out
+
+
+def batching_clauses(mods, ctxs, want):
+    """C11.  ctxs[0] = reference: Solve() alone.  Others: DoGlobalIteration batches (K in total), then Solve, then Solve."""
+    out = []
+    ref = ctxs[0]
+    href = [p for p in ref['prob'].done]
+    T = len(href)
+    for ctx in ctxs[1:]:
+        cfg = ctx['cfg']
+        K = sum(st[1] for st in cfg['script'] if st[0] == 'iter')
+        h = ctx['prob'].done
+        exp = max(K, T)
+        out.append(('C11 LENGTH: batches of %d iterations + Solve end where Solve alone ends (or at the batch total if that is later)' % K,
+                    len(h) == exp and len(ctx['prob'].started) == exp))
+        for i in range(min(len(h), T)):
+            out.append(('C11 SEQUENCE: trial %d is the same however the iterations are batched' % (i + 1),
+                        AND(EQ(h[i][1], href[i][1]), *[EQ(a, b) for a, b in zip(h[i][0], href[i][0])])))
+        solves = [x for x in ctx['returned'] if x[0] == 'solve']
+        for later in solves[1:]:
+            out.append(('C11 AGAIN: Solve on a finished solver performs no further global trial', later[3] == later[4]))
+        if solves and ref['returned']:
+            a, b = solves[0][2], ref['returned'][0][2]
+            if len(h) == T:
+                out.append(('C11 RESULT: the result does not depend on the batching',
+                            AND(EQ(a['best_value'], b['best_value']), a['trials'] == b['trials'], EQ(a['accuracy'], b['accuracy']),
+                                *[EQ(p, q) for p, q in zip(a['best_point'] or [], b['best_point'] or [])])))
+    return out
+
+
+def isolation_clauses(mods, ctxs, want):
+    """C12.  ctxs[0] = the main solver run alone; others: the same script with another solver created / iterated in between."""
+    out = []
+    ref = ctxs[0]
+    href = ref['prob'].done
+    sib_ref = None
+    for ctx in ctxs[1:]:
+        h = ctx['prob'].done
+        out.append(('C12 LENGTH: the solver makes the same number of trials with or without other solvers around', len(h) == len(href)))
+        for i in range(min(len(h), len(href))):
+            out.append(('C12 SEQUENCE: trial %d is unchanged by other solvers' % (i + 1),
+                        AND(EQ(h[i][1], href[i][1]), *[EQ(a, b) for a, b in zip(h[i][0], href[i][0])])))
+        oa, ob = observe(ctx['solver']), observe(ref['solver'])
+        out.append(('C12 RECORD: the search information is unchanged by other solvers',
+                    AND(len(oa['xs']) == len(ob['xs']), *[EQ(a, b) for a, b in zip(oa['xs'], ob['xs'])])))
+        for (ka, sa, snap_a, _, _), (kb, sb, snap_b, _, _) in zip(ctx['returned'], ref['returned']):
+            now = snapshot_solution(sa)
+            out.append(('C12 KEPT: a Solution obtained earlier still reports its own optimum after other solvers ran',
+                        AND(EQ(now['best_value'], snap_a['best_value']), now['trials'] == snap_a['trials'],
+                            *[EQ(p, q) for p, q in zip(now['best_point'] or [], snap_a['best_point'] or [])])))
+            out.append(('C12 RESULT: the result equals the result of running alone',
+                        AND(EQ(snap_a['best_value'], snap_b['best_value']), snap_a['trials'] == snap_b['trials'],
+                            *[EQ(p, q) for p, q in zip(snap_a['best_point'] or [], snap_b['best_point'] or [])])))
+        # the other solver is not disturbed either: compare with the same sibling run alone
+        sib = ctx.get('sibling')
+        if sib is not None and ctx['cfg'].get('sibling_alone_script'):
+            if sib_ref is None or sib_ref[0] != (ctx['cfg']['sibling'], tuple(ctx['cfg']['sibling_alone_script'])):
+                c2 = dict(ctx['cfg'])
+                c2['script'] = []
+                alone = run_scenario(mods, c2, lambda ys, i: 0.0, ctx['r'], ctx['eps'])
+                for st in ctx['cfg']['sibling_alone_script']:
+                    if st[0] == 'other':
+                        alone['sibling'].DoGlobalIteration(st[1])
+                    elif st[0] == 'other-solve':
+                        alone['sibling'].Solve()
+                sib_ref = ((ctx['cfg']['sibling'], tuple(ctx['cfg']['sibling_alone_script'])), alone['sibling'].problem.done)
+            hs = sib.problem.done
+            out.append(('C12 OTHER: the other solver makes the same trials as when it runs alone',
+                        AND(len(hs) == len(sib_ref[1]), *[AND(EQ(a[1], b[1]), *[EQ(p, q) for p, q in zip(a[0], b[0])]) for a, b in zip(hs, sib_ref[1])])))
     return out
